@@ -378,6 +378,31 @@ def run_input_stream(W, rec):
             rec.violation(f"C09/get_input_stream-unrelated-exception:{type(e).__name__}", f"{e!r}; {case}", case, monitor="exception-type")
             continue
         rec.observe("input_stream_outcome:" + (got_exc or "data"))
+        if safe and not case.get("reused_environ"):
+            # the same cell through the request object: Request.stream and Request.get_data() give what
+            # get_input_stream gives, and take no more from the server's input
+            for via in ("stream", "get_data", "data"):
+                inp2 = Blocking(body, terminated)
+                env2 = dict({k_: v_ for k_, v_ in env.items() if k_ != "wsgi.input"}, **{"wsgi.input": inp2, "REQUEST_METHOD": "POST", "wsgi.url_scheme": "http",
+                            "SERVER_NAME": "h", "SERVER_PORT": "80", "PATH_INFO": "/", "SCRIPT_NAME": "", "QUERY_STRING": "", "CONTENT_TYPE": "application/octet-stream"})
+
+                class R(W["Request"]):
+                    max_content_length = maxlen
+
+                try:
+                    rq = R(env2)
+                    got2 = rq.stream.read() if via == "stream" else rq.get_data() if via == "get_data" else rq.data
+                except RequestEntityTooLarge:
+                    got2 = "413"
+                except ClientDisconnected:
+                    got2 = "disc"
+                except Exception as e:  # noqa: BLE001
+                    rec.violation(f"C09/request-{via}-unrelated-exception:{type(e).__name__}", f"{e!r}; {case}", case, monitor="exception-type")
+                    break
+                rec.observe("request_level_reads")
+                if got2 != (got_exc or data) or inp2.pos != inp.pos or inp2.would_block != inp.would_block:
+                    rec.violation("C09/request-object-differs-from-get_input_stream", f"Request.{via}: {got2!r} after consuming {inp2.pos} bytes; get_input_stream: {(got_exc or data)!r} after consuming {inp.pos}; {case}", case, monitor="decision-table")
+                    break
         # history: what the handler of this request does with the stream it was given must not reach a later request
         # (a `with request.stream:` block closes it; a careless handler writes into the empty fallback stream)
         try:
@@ -474,8 +499,9 @@ def nested_streams(W, rec):
 
 def world():
     from werkzeug import wsgi
+    from werkzeug.wrappers import Request
 
-    return {"LimitedStream": wsgi.LimitedStream, "get_input_stream": wsgi.get_input_stream, "wsgi": wsgi}
+    return {"LimitedStream": wsgi.LimitedStream, "get_input_stream": wsgi.get_input_stream, "wsgi": wsgi, "Request": Request}
 
 
 def run(shard, rec, rng):
